@@ -41,6 +41,83 @@ type Case struct {
 	Topo   uint64 `json:"topo,omitempty"`
 	Expect string `json:"expect,omitempty"` // dec: accept | reject | reject-partial-topology | ""
 	Origin string `json:"origin,omitempty"` // how the byte string was derived (kind)
+	Raw    *Raw   `json:"raw,omitempty"`    // op decraw: byte string assembled from these parameters
+	Budget string `json:"budget,omitempty"` // which large-case budget decides whether the model sees it
+}
+
+// Raw describes a snapshot encoding assembled by hand at byte level (the
+// encoder refuses most of them): every length / count / presence field is set
+// independently of what follows it.
+type Raw struct {
+	Magic0    byte   `json:"magic0"`
+	Magic1    byte   `json:"magic1"`
+	VerHi     byte   `json:"ver_hi"`
+	Ver       byte   `json:"ver"`
+	Round     uint64 `json:"round"`
+	RefsCount int    `json:"refs_count"` // the 2-byte references count field
+	RefsGiven int    `json:"refs_given"` // how many 32-byte hashes follow it
+	Count     int    `json:"count"`      // the 2-byte transactions count field
+	NTx       int    `json:"ntx"`        // how many strictly increasing 32-byte hashes follow it
+	Ts        uint64 `json:"ts"`
+	Mask      uint64 `json:"mask"`
+	SigGiven  bool   `json:"sig_given"` // 64 signature bytes follow the mask
+	Topo      bool   `json:"topo"`      // 8-byte topology suffix present
+	TopoVal   uint64 `json:"topo_val"`
+}
+
+func be(n int, v uint64) []byte {
+	b := make([]byte, n)
+	for i := n - 1; i >= 0; i-- {
+		b[i] = byte(v)
+		v >>= 8
+	}
+	return b
+}
+
+func (r *Raw) bytes() []byte {
+	b := []byte{r.Magic0, r.Magic1, r.VerHi, r.Ver}
+	b = append(b, bytes.Repeat([]byte{0x0d}, 32)...)
+	b = append(b, be(8, r.Round)...)
+	b = append(b, be(2, uint64(r.RefsCount))...)
+	for i := 0; i < r.RefsGiven; i++ {
+		b = append(b, bytes.Repeat([]byte{byte(0xa1 + i)}, 32)...)
+	}
+	b = append(b, be(2, uint64(r.Count))...)
+	for i := 0; i < r.NTx; i++ { // strictly increasing: the first two bytes count up from 1
+		h := bytes.Repeat([]byte{0x5a}, 32)
+		h[0], h[1] = byte((i+1)>>8), byte(i+1)
+		b = append(b, h...)
+	}
+	b = append(b, be(8, r.Ts)...)
+	b = append(b, be(8, r.Mask)...)
+	if r.SigGiven {
+		b = append(b, bytes.Repeat([]byte{0xc3}, 64)...)
+	}
+	if r.Topo {
+		b = append(b, be(8, r.TopoVal)...)
+	}
+	return b
+}
+
+// wellFormedRaw: the assembled bytes are what the encoder writes for a snapshot
+// the property admits (so they must be accepted); otherwise they must be rejected.
+func (r *Raw) wellFormed() bool {
+	if r.Magic0 != 0x77 || r.Magic1 != 0x77 || r.VerHi != 0 || r.Ver != common.SnapshotVersionCommonEncoding {
+		return false
+	}
+	if r.RefsCount != r.RefsGiven || (r.RefsCount != 0 && r.RefsCount != 2) {
+		return false
+	}
+	if r.Count != r.NTx || r.NTx < 1 || r.NTx > 255 {
+		return false
+	}
+	if r.Round == 0 && (r.NTx != 1 || r.RefsCount != 0) {
+		return false
+	}
+	if r.Round > 0 && r.RefsCount != 2 {
+		return false
+	}
+	return (r.Mask != 0) == r.SigGiven
 }
 
 func unhex(s string) []byte {
@@ -257,28 +334,42 @@ func validHeader(b []byte) bool {
 
 func run(c *vh.Ctx, cs Case) {
 	switch cs.Op {
-	case "dec":
-		b := unhex(cs.B)
+	case "dec", "decraw":
+		var b []byte
+		key, budget := cs.B, "dec"
+		if cs.Op == "decraw" {
+			b = cs.Raw.bytes()
+			key = fmt.Sprintf("raw|%+v", *cs.Raw)
+		} else {
+			b = unhex(cs.B)
+		}
+		if cs.Budget != "" {
+			budget = cs.Budget
+		}
 		r, err, pan := decode(b)
 		kind := "dec:" + cs.Origin
 		if pan {
-			c.Case(kind, cs.B, true, cs, model("dec", len(b), vh.App("CDec", vh.Bytes(b), vh.Pan("(snapshot * N)"))))
+			c.Case(kind, key, true, cs, model(budget, len(b), vh.App("CDec", vh.Bytes(b), vh.Pan("(snapshot * N)"))))
 			c.Fail("decoder-panic", "UnmarshalVersionedSnapshot panicked", cs)
 			return
 		}
 		if err != nil {
-			c.Case(kind, cs.B, validHeader(b), cs, model("dec", len(b), vh.App("CDec", vh.Bytes(b), vh.Err("(snapshot * N)"))))
+			c.Case(kind, key, validHeader(b), cs, model(budget, len(b), vh.App("CDec", vh.Bytes(b), vh.Err("(snapshot * N)"))))
 			if cs.Expect == "accept" {
 				c.Fail("valid-rejected", "an encoding produced by VersionedMarshal (full topology suffix or none) was rejected: "+err.Error(), cs)
 			}
 			return
 		}
 		got := fromGo(r.Snapshot)
-		c.Case(kind, cs.B, true, cs, model("dec", len(b), vh.App("CDec", vh.Bytes(b),
+		c.Case(kind, key, true, cs, model(budget, len(b), vh.App("CDec", vh.Bytes(b),
 			vh.Ok("("+got.coq()+", "+vh.NU(r.TopologicalOrder)+")"))))
 		switch cs.Expect {
 		case "reject-partial-topology":
 			c.Fail("partial-topology-accepted", fmt.Sprintf("an encoding whose 8-byte topology suffix is cut short was accepted with order %d", r.TopologicalOrder), cs)
+		case "reject-count":
+			c.Fail("count-out-of-range-accepted", fmt.Sprintf("a snapshot encoding with %d transaction hashes (count field %d) was accepted", cs.Raw.NTx, cs.Raw.Count), cs)
+		case "reject-field":
+			c.Fail("malformed-field-accepted", "a hand-assembled encoding with an out-of-range count / presence / version field was accepted", cs)
 		case "reject":
 			c.Fail("noncanonical-accept", "a truncation / extension of a valid encoding that is not itself an encoding was accepted", cs)
 		}
@@ -771,6 +862,106 @@ func main() {
 	edit("handmade", func(b []byte) []byte { return append(b, 0) })
 	for _, l := range []int{0, 1, 3, 4, 5, 36, 43, 44, 45, 46} {
 		g.dec(base[:l], "reject", "truncation")
+	}
+
+	// ---- directed decoder boundaries, assembled at byte level -----------------------------
+	bigLeft["count"] = c.Scale(4, 12)
+	bigLeft["none"] = 0
+	rawCase := func(r Raw, origin, rejectAs, budget string) {
+		exp := rejectAs
+		if r.wellFormed() {
+			exp = "accept"
+		}
+		rr := r
+		run(c, Case{Op: "decraw", Raw: &rr, Expect: exp, Origin: origin, Budget: budget})
+	}
+	okRaw := Raw{Magic0: 0x77, Magic1: 0x77, Ver: common.SnapshotVersionCommonEncoding, Round: 1, RefsCount: 2, RefsGiven: 2,
+		Count: 1, NTx: 1, Ts: 7, Mask: 1, SigGiven: true, Topo: true, TopoVal: 0x0102030405060708}
+	// the transaction count: 254, 255 accepted; 0, 256, 257 (and the count fields 0x0100, 0xFFFF
+	// with every announced hash present) rejected; with/without signature and topology suffix
+	for _, n := range []int{255, 256, 254, 257, 0, 0xFFFF} {
+		for _, withSig := range []bool{true, false} {
+			for _, withTopo := range []bool{true, false} {
+				if n == 0xFFFF && (withSig != withTopo || c.Tier == "quick" && !withSig) {
+					continue // 2 MB each: one (quick) or two forms
+				}
+				r := okRaw
+				r.Count, r.NTx, r.SigGiven, r.Topo = n, n, withSig, withTopo
+				if !withSig {
+					r.Mask = 0
+				}
+				budget := "none" // oracle only
+				if (n == 255 || n == 256) && withSig == withTopo {
+					budget = "count"
+				}
+				rawCase(r, "count-boundary", "reject-count", budget)
+			}
+		}
+	}
+	for _, n := range []int{256, 0x0100 + 1, 0xFFFF} { // count field beyond the hashes that follow
+		r := okRaw
+		r.Count, r.NTx = n, 255
+		rawCase(r, "count-boundary", "reject-count", "none")
+	}
+	// every other numeric limit the decoder checks, +-1: one field at a time around a round-1 and a
+	// round-0 encoding (quick), the full product (thorough / search)
+	gen0 := okRaw
+	gen0.Round, gen0.RefsCount, gen0.RefsGiven = 0, 0, 0
+	field := func(base Raw) {
+		for _, rc := range []int{0, 1, 2, 3, 0x0102, 0x0200} {
+			for _, given := range []int{0, 1, 2, 3} {
+				if rc < 4 && given != rc && !(rc == 1 && given == 2) && !(rc == 3 && given == 2) {
+					continue
+				}
+				r := base
+				r.RefsCount, r.RefsGiven = rc, given
+				rawCase(r, "field-boundary", "reject-field", "dec")
+			}
+		}
+		for _, n := range []int{0, 1, 2, 3} {
+			r := base
+			r.Count, r.NTx = n, n
+			rawCase(r, "field-boundary", "reject-field", "dec")
+		}
+		for _, m := range []uint64{0, 1, 2, 1 << 63, ^uint64(0)} {
+			for _, sg := range []bool{true, false} {
+				for _, tp := range []bool{true, false} {
+					r := base
+					r.Mask, r.SigGiven, r.Topo = m, sg, tp
+					rawCase(r, "field-boundary", "reject-field", "dec")
+				}
+			}
+		}
+		for _, rd := range []uint64{0, 1, 2, ^uint64(0)} {
+			r := base
+			r.Round = rd
+			rawCase(r, "field-boundary", "reject-field", "dec")
+		}
+		for _, v := range [][4]byte{{0x77, 0x77, 0, 1}, {0x77, 0x77, 0, 2}, {0x77, 0x77, 0, 3}, {0x77, 0x77, 0, 0}, {0x77, 0x77, 1, 2},
+			{0x77, 0x77, 0xff, 2}, {0x76, 0x77, 0, 2}, {0x78, 0x77, 0, 2}, {0x77, 0x76, 0, 2}, {0x77, 0x78, 0, 2}, {0, 0, 0, 2}} {
+			r := base
+			r.Magic0, r.Magic1, r.VerHi, r.Ver = v[0], v[1], v[2], v[3]
+			rawCase(r, "field-boundary", "reject-field", "dec")
+		}
+	}
+	field(okRaw)
+	field(gen0)
+	if c.Tier != "quick" {
+		for _, rd := range []uint64{0, 1} {
+			for _, rc := range []int{0, 1, 2, 3} {
+				for _, n := range []int{0, 1, 2} {
+					for _, m := range []uint64{0, 1, 2} {
+						for _, sg := range []bool{true, false} {
+							for _, tp := range []bool{true, false} {
+								r := okRaw
+								r.Round, r.RefsCount, r.RefsGiven, r.Count, r.NTx, r.Mask, r.SigGiven, r.Topo = rd, rc, rc, n, n, m, sg, tp
+								rawCase(r, "field-product", "reject-field", "dec")
+							}
+						}
+					}
+				}
+			}
+		}
 	}
 
 	// ---- structured snapshots ----------------------------------------------------------
